@@ -3,8 +3,8 @@ Every random choice comes from the rng passed in.  A generated requirement is a 
 import gen
 
 NAMES = ["a", "A", "foo", "Foo.Bar", "foo_bar-baz", "a1", "1a", "x-y.z_w", "pkg9", "FOO", "f", "0", "a.b", "a--b", "a_.-b", "zope.interface",
-         "Django", "typing_extensions", "ruamel.yaml.clib", "A-B_C.D", "x" * 40]
-EXTRAS = ["x", "Y", "a-b", "a_b.c", "e1", "X", "y", "A_B", "security", "socks", "1", "a.-_b"]
+         "Django", "typing_extensions", "ruamel.yaml.clib", "A-B_C.D", "x" * 40, "a_", "foo_", "Foo.Bar-_"]
+EXTRAS = ["x", "Y", "a-b", "a_b.c", "e1", "X", "y", "A_B", "security", "socks", "1", "a.-_b", "x_", "a-b_"]
 URLS = ["http://x.y/z", "https://a/b#egg=c", "file:///tmp/x", "git+https://g/h@v1.0", "http://x/;y", "x", "-", "http://h/p?q=1&r=(2)", "a,b",
         "https://e.org/[x]", "u;python_version<'3'", "===1", ">=1", "éè", "http://x/a|b"]
 VARS = ["python_version", "python_full_version", "os_name", "sys_platform", "platform_release", "platform_system", "platform_version",
@@ -14,10 +14,28 @@ MOPS = ["==", "!=", "<", "<=", ">", ">=", "~=", "===", "in", "not in"]
 LITS = ["3.8", "3", "2.7.*", "posix", "win32", "Linux", "x86_64", "CPython", "cpython", "1.0.0", "", " ", "a b", "it's", 'say "hi"', "Foo_Bar",
         "foo.bar", "a--b", "X", "x", "e1", "linux2", "3.10", "#1 SMP", "é", "a;b", "a)b", "(", "or", "and"]
 BLANKS = ["", "", "", " ", "  ", "\t", " \t"]
+# every character of Python's \s (str patterns) / str.strip(): the whitespace allowed between an operator and its version
+WS_ALL = [chr(c) for c in (9, 10, 11, 12, 13, 28, 29, 30, 31, 32, 133, 160, 5760, 8192, 8193, 8194, 8195, 8196, 8197, 8198, 8199, 8200, 8201,
+                           8202, 8232, 8233, 8239, 8287, 12288)]
+URL_CH = list("abcxyz019:/?#[]@!$&'()*+,;=-._~%|<>\"{}^`") + ["é", "\n", "\x0b", "\xa0", "\u2003", "İ", "ſ", "\x00"]
 
 
 def ws(rng):
     return rng.choice(BLANKS)
+
+
+def clause_ws(rng):
+    """whitespace between the operator and the version: mostly none / blanks, sometimes 1-2 characters of the full \\s table"""
+    k = rng.random()
+    if k < 0.55: return ""
+    if k < 0.8: return rng.choice([" ", "\t", "  "])
+    return "".join(rng.choice(WS_ALL) for _ in range(rng.choice([1, 1, 2])))
+
+
+def rand_url(rng):
+    """a URL token: [^ \\t]+ - a realistic literal, or 1..13 random non-blank characters (incl. newline, \\v, NBSP, non-ASCII)"""
+    if rng.random() < 0.5: return rng.choice(URLS)
+    return "".join(rng.choice(URL_CH) for _ in range(rng.choice([1, 2, 3, 5, 8, 13])))
 
 
 def rand_ident(rng):
@@ -26,7 +44,7 @@ def rand_ident(rng):
     first = rng.choice("abzAZ09")
     if n == 1: return first
     mid = "".join(rng.choice("abzAZ019._-") for _ in range(n - 2))
-    return first + mid + rng.choice("abzAZ09")
+    return first + mid + rng.choice("abzAZ09abzAZ09_")          # the IDENTIFIER rule also takes a final "_" (a \w character)
 
 
 def name_variant(rng, name):
@@ -37,7 +55,8 @@ def name_variant(rng, name):
         if c in "._-":
             j = i
             while j < len(name) and name[j] in "._-": j += 1
-            out.append(rng.choice(["-", "_", ".", "--", "-_", "._.", name[i:j]]))
+            if j == len(name): out.append(rng.choice(["_", "-_", "._", "__", name[i:j]]))      # a final run must end in "_" to stay one token
+            else: out.append(rng.choice(["-", "_", ".", "--", "-_", "._.", name[i:j]]))
             i = j
         else:
             out.append(c.upper() if rng.random() < 0.3 else c.lower() if rng.random() < 0.3 else c)
@@ -54,7 +73,7 @@ def rand_clause(rng, arb_p=0.08):
     v = gen.rand_v(rng)
     if rng.random() < arb_p:
         t = rng.choice([gen.vstr(v), "foo", "1.0-x_y", "z", "1.0+ubuntu", "A.B", "1.0.*", "é", "=1", "x(y"])
-        return ("===", ws(rng), t)
+        return ("===", clause_ws(rng), t)
     op = rng.choice(["==", "!=", "~=", "<=", ">=", "<", ">", "==", ">=", "==*", "!=*"])
     wild = op.endswith("*"); op = op.rstrip("*")
     if wild: v = base_of(v)
@@ -62,18 +81,36 @@ def rand_clause(rng, arb_p=0.08):
     if op == "~=" and len(v.release) < 2 and rng.random() < 0.95: v = gen.replace(v, release=v.release + (0,))
     if rng.random() < 0.5: t = gen.vstr(v)
     else: t = gen.spell(rng, v, ws=False, vprefix=rng.random() < 0.3)
-    return (op, rng.choice(["", "", "", " ", "\t", "  "]), t + (".*" if wild else ""))
+    return (op, clause_ws(rng), t + (".*" if wild else ""))
+
+
+def raw_key(c):
+    """clauses whose canonical key is (operator, raw text): '===' and prefix matches (canonicalize_version leaves 'V.*' alone)"""
+    return c[0] == "===" or c[2].endswith(".*")
 
 
 def clause_variant(rng, c):
     """another spelling of an equal clause (same operator, equal version): trailing zeros, v prefix, alternate words"""
     op, w, t = c
-    if op == "===" or t.endswith(".*"): return (op, ws(rng), t)
+    if raw_key(c): return (op, clause_ws(rng), t)
     k = rng.random()
-    if k < 0.3 and "+" not in t and not any(ch.isalpha() for ch in t) and op != "~=": return (op, ws(rng), t + ".0")
-    if k < 0.5: return (op, ws(rng), "v" + t if not t.startswith(("v", "V")) else t)
-    if k < 0.7: return (op, ws(rng), t.upper())
-    return (op, ws(rng), t)
+    if k < 0.3 and "+" not in t and not any(ch.isalpha() for ch in t) and op != "~=": return (op, clause_ws(rng), t + ".0")
+    if k < 0.5: return (op, clause_ws(rng), "v" + t if not t.startswith(("v", "V")) else t)
+    if k < 0.7: return (op, clause_ws(rng), t.upper())
+    return (op, clause_ws(rng), t)
+
+
+def raw_text_variant(rng, c):
+    """a DIFFERENT text for a clause compared by raw text: what would be an equal version elsewhere (trailing zero, case, v prefix,
+    leading zero) is a different clause under '===' and for prefix matches"""
+    op, w, t = c
+    wild = t.endswith(".*") and op != "==="
+    base = t[:-2] if wild else t
+    cands = [base + ".0", base.swapcase(), "v" + base, "0" + base, base.upper(), base.lower(), base + "0"]
+    if base.endswith(".0"): cands.append(base[:-2])
+    cands = [x for x in cands if x != base and x and not any(ch in x for ch in " \t,;)")]
+    if not cands: cands = [base + ".0"]
+    return (op, clause_ws(rng), rng.choice(cands) + (".*" if wild else ""))
 
 
 def rand_side(rng, want_var):
@@ -134,14 +171,14 @@ def render_marker(rng, tree, canonical=False):
 
 def rand_req(rng, url_p=0.2, marker_p=0.4):
     R = {"name": rand_ident(rng)}
-    R["extras"] = [rng.choice(EXTRAS) if rng.random() < 0.8 else rand_ident(rng) for _ in range(rng.choice([0, 0, 1, 2, 3, 4]))] if rng.random() < 0.5 else None
+    R["extras"] = [rng.choice(EXTRAS) if rng.random() < 0.8 else rand_ident(rng) for _ in range(rng.choice([0, 0, 1, 1, 2, 2, 3, 4, 6, 9]))] if rng.random() < 0.5 else None
     if rng.random() < url_p:
-        R["url"] = rng.choice(URLS); R["clauses"] = []; R["paren"] = False
+        R["url"] = rand_url(rng); R["clauses"] = []; R["paren"] = False
     else:
         R["url"] = None
-        R["clauses"] = [rand_clause(rng) for _ in range(rng.choice([0, 1, 1, 2, 2, 3, 5]))]
+        R["clauses"] = [rand_clause(rng) for _ in range(rng.choice([0, 1, 1, 1, 2, 2, 2, 3, 3, 5, 8, 12]))]
         R["paren"] = rng.random() < 0.3
-    R["marker"] = rand_marker_tree(rng, 2) if rng.random() < marker_p else None
+    R["marker"] = rand_marker_tree(rng, rng.choice([1, 2, 2, 2, 3, 4])) if rng.random() < marker_p else None
     return R
 
 
